@@ -68,6 +68,8 @@ type rateFlag struct{ *vegeta.Rate }
 
 func (f *rateFlag) Set(v string) (err error) {
 	if v == "infinity" {
+		// Same as 0: as fast as possible, requires -max-workers.
+		f.Freq = 0
 		return nil
 	}
 
